@@ -1708,9 +1708,8 @@ class Exec:
         for name in set(v1) | set(v2):
           a, b = v1.get(name), v2.get(name)
           if a is None or b is None:
-            if name in sv:
-              raise EngineError('merge')
-            continue
+            # a name bound on one side only cannot be merged: split instead
+            raise EngineError('merge')
           out[name] = a if a is b else ite_value(t, a, b)
         merged_vars.append(out)
       merged_heap = {}
